@@ -692,6 +692,13 @@ def _label_filters(fi, D0, D1):
         elif it == D1:
             p = _replace(pred, ("bv", "$0"), ("$L",))
             comp_kind = "labels"
+        elif it == ("call", ("n", "zip"), (D0, D1), ()) and body == ("bv", "$0"):
+            # (x, c) in zip(samples, labels): the label of the sample is c
+            p = _replace(pred, ("bv", "$1"), ("$L",))
+            comp_kind = "samples"
+        elif it == ("call", ("n", "zip"), (D0, D1), ()) and body == ("bv", "$1"):
+            p = _replace(pred, ("bv", "$1"), ("$L",))
+            comp_kind = "labels"
         else:
             continue
         kind = "less" if p == ("cmp", "Eq", ("$L",), ("c", "-1")) or p == ("cmp", "Eq", ("c", "-1"), ("$L",)) else "full"
